@@ -445,6 +445,15 @@ def run(ctx):
                 "mis_ok/agg_ok_glob, shared labels agree; non-trivial = sequential: some edge; distributed: at least "
                 "two ranks own rows and some rank has off-process columns; distinct = distinct case text")
     rng = ctx.rng
+    ctx.extra_cov = dict(
+        proved_for_all_inputs=["mis_ok / agg_ok / agg_ok_glob decide (resp. are sound for) the property's clauses",
+                               "sequential mis2: terminates within n rounds, every vertex decided, roots maximal (any keys, any pattern)",
+                               "sequential mis2 on a symmetric pattern with self loops and distinct keys: accepted by mis_ok",
+                               "sequential aggregate on decided maximal roots: returns, accepted by agg_ok; pipeline mis2;aggregate (abstract order and Qc instance)"],
+        validated_by_verified_checker_not_proved=["distributed mis2/aggregate (par_mis.cpp, par_aggregate.cpp): gathered output equals the sequential model "
+                                                  "and the sequential implementation for the same keys, accepted by mis_ok/agg_ok_glob, shared labels agree, "
+                                                  "on the explored graphs/partitions (exhaustive <= 3 / <= 5 vertices, sampled beyond)"],
+        tap_configurations="tap on only with one node or only full nodes (TAPComm construction hangs when num_procs % PPN != 0 on several nodes)")
     if ctx.replay:
         return replay(ctx)
     # ---- random and named graphs
@@ -523,7 +532,7 @@ def exhaustive_chunks(ctx):
         b = Base("x%d_%d_%s" % (n, mask, "".join(map(str, perm))), S, [[(c, Fraction(1)) for c in r] for r in S], keys, kind)
         b.mask, b.par_stride = mask, stride
         return b
-    plan = ctx.scale([(1, 1), (2, 1), (3, 1)], [(1, 1), (2, 1), (3, 1), (4, 1), (5, 5)])
+    plan = ctx.scale([(1, 1), (2, 1), (3, 1)], [(1, 1), (2, 1), (3, 1), (4, 1), (5, 6)])
     chunk = []
     for n, stride in plan:
         perms = list(itertools.permutations(range(n)))
@@ -531,7 +540,7 @@ def exhaustive_chunks(ctx):
             chunk += [mk(n, mask, perm, "exhaustive%d" % n, stride) for perm in perms]
             if len(chunk) >= 7680: yield chunk; chunk = []
     # sampled larger ones (all partitions each)
-    for n, cnt in ((4, ctx.scale(200, 0)), (5, ctx.scale(150, 0)), (6, ctx.scale(100, 2500))):
+    for n, cnt in ((4, ctx.scale(200, 0)), (5, ctx.scale(150, 0)), (6, ctx.scale(100, 1500))):
         npr = len(all_pairs(n))
         for k in range(cnt):
             perm = list(range(n)); rng.shuffle(perm)
@@ -548,16 +557,11 @@ def replay(ctx):
         if t[1] == "seq":
             impl, _ = fw.run_impl_lines(ctx, DRIVER, [line], nprocs=0, name="replay")
             model = fw.run_model(ctx, fw.write_cases(ctx, "replay.model", [line]))[1]
-            ctx.evaluations += 1; ctx.compared += 1
-            ri, rm = impl.get(t[0]), model.get(t[0])
-            if not ri or not rm or ri[0][1] != rm[0][1]:
-                ctx.signal("K", "seq:mis2_aggregate", "model and implementation differ: %s vs %s" % (ri, rm), case=line)
+            ri = impl.get(t[0])
             p = parse_seq(ri[0][1]) if ri and ri[0][0] == "R" else None
-            if p:
-                b = base_from_seq_line(t)
-                chk = fw.run_model(ctx, fw.write_cases(ctx, "replay.chk", [b.chk_line(t[0], "seq", p[0], p[2], p[1])]))[1]
-                b.line = line
-                if b.in_scope(): judge_seq(ctx, b, t[0], impl, model, chk, True)
+            b = base_from_seq_line(t); b.line = line
+            chk = fw.run_model(ctx, fw.write_cases(ctx, "replay.chk", [b.chk_line(t[0], "seq", p[0], p[2], p[1])]))[1] if p else {}
+            judge_seq(ctx, b, t[0], impl, model, chk, t[2] == "mis" and b.in_scope())
         else:
             b, tap, P, first = base_from_par_line(t)
             for Pn in ([P] if P else [1, 2, 3]):
